@@ -231,6 +231,16 @@ def make_tamper(alter, plan, state: dict):
             mode = alter[2] if len(alter) > 2 else "plain"
             if mode == "plain":
                 return rpce.build_response(stub, ctx_id=pdu["ctx_id"], call_id=pdu["call_id"])
+            if mode.startswith("plain-callid"):  # ... the cleartext reply answers another call id than the one the sealed request carried
+                delta = {"plain-callid+1": 1, "plain-callid-1": -1, "plain-callid^bit": 1 << 9, "plain-callid=0": -pdu["call_id"]}[mode]
+                cid_ = (pdu["call_id"] ^ delta) if mode.endswith("^bit") else (pdu["call_id"] + delta) & 0xFFFFFFFF
+                return rpce.build_response(stub, ctx_id=pdu["ctx_id"], call_id=cid_)
+            if mode == "shutdown-first":  # an unauthenticated 16-byte shutdown PDU in front of the cleartext reply
+                return rpce.header(17, rpce.PFC_FIRST | rpce.PFC_LAST, 16, 0, pdu["call_id"]) + rpce.build_response(stub, ctx_id=pdu["ctx_id"], call_id=pdu["call_id"])
+            if mode == "shutdown-then-authentic-flipped":  # ... or in front of the authentic sealed reply with one stub bit flipped
+                b = bytearray(data)
+                b[24 + (len(data) - 24) // 3] ^= 0x10
+                return rpce.header(17, rpce.PFC_FIRST | rpce.PFC_LAST, 16, 0, pdu["call_id"]) + bytes(b)
             # keep a security trailer but with auth_len 0 semantics variants
             a = pdu["auth"]
             if mode == "zero-sig":  # trailer kept, signature zeroed, stub in clear
@@ -768,7 +778,7 @@ class C16(common.Check):
     level = "fault_enumeration"
     rule = ("case = (security context: StubCtx with/without header signing, real NTLM, real Negotiate->NTLM; operation protect|unprotect; "
             "flavour; alteration of the GetKey reply by an on-path adversary without the session key). Alterations: security trailer stripped "
-            "and a well-formed cleartext reply with adversary seed keys / public key substituted (also: zeroed signature, auth level NONE, a dummy signature of 1..32 octets that is not the context's signature length); "
+            "and a well-formed cleartext reply with adversary seed keys / public key substituted (also: zeroed signature, auth level NONE, a dummy signature of 1..32 octets that is not the context's signature length, a cleartext reply under another call id, an unauthenticated shutdown PDU in front of the forgery); "
             "every single-bit flip of the authentic reply (all bits for StubCtx and NTLM in thorough; strided in quick); frag_len / auth_len / "
             "pad_length / alloc_hint / auth level / auth type rewritten to {0,1,true+-1,true+-16,0xFFFF}; sealed stub substituted; sealed reply "
             "of an earlier connection replayed; handshake man-in-the-middle (security trailers removed from bind_ack / alter_context_resp, every "
@@ -800,7 +810,8 @@ class C16(common.Check):
             for opname in ("protect", "unprotect"):
                 for fl in ("sync", "async"):
                     for kind in ("seed", "pub"):
-                        for mode in ("plain", "zero-sig", "level-none", "sig-len-8", "sig-len-12", "sig-len-1", "sig-len-4", "sig-len-17", "sig-len-32"):
+                        for mode in ("plain", "zero-sig", "level-none", "sig-len-8", "sig-len-12", "sig-len-1", "sig-len-4", "sig-len-17", "sig-len-32",
+                                     "plain-callid+1", "plain-callid-1", "plain-callid^bit", "plain-callid=0", "shutdown-first", "shutdown-then-authentic-flipped"):
                             out.append([ctxname, "p256", opname, fl, ["strip", kind, mode]])
                     out.append([ctxname, "p256", opname, fl, ["replay"]])
                     for fk in ("last-only", "first-last"):
